@@ -22,7 +22,7 @@ def concretise(scheds, pid, tier, seed, roles=("server", "client")):
                 continue
         out.append(dict(id="%s-%s-s%d" % (pid, tier[0], i), role=rnd.choice(roles), wbuf=rnd.choice([16, 64, 200]),
                         progs=s["progs"], sched=s["sched"], faultAt=s["faultAt"], free=False, seed=rnd.randrange(1, 1 << 30),
-                        pool=rnd.random() < 0.5))
+                        pool=rnd.random() < 0.5, faultKind=rnd.choice(["err", "err", "timeout", "short"])))
     return out
 
 
@@ -38,6 +38,7 @@ def free_programs(scheds, pid, tier, seed, count, block=False):
         # large WriteMessage payloads: several frames per call (client) / the direct-write path (server)
         out[-1]["scale"] = rnd.choice([1, 1, 3 * out[-1]["wbuf"] + 30])
         out[-1]["pool"] = rnd.random() < 0.5
+        out[-1]["faultKind"] = rnd.choice(["err", "timeout", "short"])
     return out
 
 
